@@ -83,9 +83,7 @@ def _zw(helper):
                'CD1_1': m[0, 0], 'CD1_2': m[0, 1], 'CD2_1': m[1, 0], 'CD2_2': m[1, 1]}
         if np.isfinite(ww.lonpole) and ww.lonpole != 180.0:
             raise ValueError('lonpole')
-        if m[0, 1] != 0 or m[1, 0] != 0:
-            raise ValueError('rotation')
-        z = wz.ZenithalWCS(hdr)
+        z = wz.ZenithalWCS(hdr)             # general CD matrix: rotated grids are inside the oracle's formulation
     except Exception:
         z = False
     try:
@@ -95,13 +93,91 @@ def _zw(helper):
     return z
 
 
+def _cd_from_header(h):
+    """CD matrix (deg/pixel) from CDi_j, else CDELT x PCi_j, else CDELT + CROTA2 (FITS paper II, eq. 189) - parsed here,
+    not by astropy"""
+    if any(k in h for k in ('CD1_1', 'CD1_2', 'CD2_1', 'CD2_2')):
+        return np.array([[h.get('CD1_1', 0.0), h.get('CD1_2', 0.0)], [h.get('CD2_1', 0.0), h.get('CD2_2', 0.0)]], dtype=float)
+    c1, c2 = float(h['CDELT1']), float(h['CDELT2'])
+    if any(k in h for k in ('PC1_1', 'PC1_2', 'PC2_1', 'PC2_2')):
+        pc = np.array([[h.get('PC1_1', 1.0), h.get('PC1_2', 0.0)], [h.get('PC2_1', 0.0), h.get('PC2_2', 1.0)]], dtype=float)
+        return np.array([[c1, 0.0], [0.0, c2]]) @ pc
+    rho = np.radians(float(h.get('CROTA2', 0.0)))
+    return np.array([[c1 * np.cos(rho), -c2 * np.sin(rho)], [c1 * np.sin(rho), c2 * np.cos(rho)]])
+
+
+def _oracle_from_header(h):
+    """ZenithalWCS of a header mapping, rotation (PC / CROTA2 / CD) included; raises outside the oracle's scope"""
+    for k in h.keys():
+        if str(k).startswith(('PV', 'A_', 'B_', 'AP_', 'BP_', 'CROTA1', 'PC3', 'PC1_3', 'PC2_3')):
+            raise ValueError('unsupported key %s' % k)
+    cd = _cd_from_header(h)
+    d = {'CTYPE1': h['CTYPE1'], 'CTYPE2': h['CTYPE2'], 'CRVAL1': h['CRVAL1'], 'CRVAL2': h['CRVAL2'],
+         'CRPIX1': h['CRPIX1'], 'CRPIX2': h['CRPIX2'], 'CD1_1': cd[0, 0], 'CD1_2': cd[0, 1], 'CD2_1': cd[1, 0],
+         'CD2_2': cd[1, 1]}
+    for k in ('LONPOLE', 'LATPOLE'):
+        if k in h:
+            d[k] = h[k]
+    return wz.ZenithalWCS(d)
+
+
 def _attach_header(helper, header):
     """prefer the header itself (no astropy parsing at all) when it is a mapping the oracle supports"""
     try:
         if hasattr(header, 'keys') and 'CTYPE1' in header:
-            helper._aegmon_zwcs = wz.ZenithalWCS(header)
+            helper._aegmon_zwcs = _oracle_from_header(header)
     except Exception:
         pass
+
+
+_rot_checked = False
+
+
+def _selfcheck_rotated():
+    """the oracle on rotated grids (PC, CROTA2, CD spellings) against astropy.wcs, once per process; a disagreement is an
+    oracle fault, never a violation"""
+    global _rot_checked
+    if _rot_checked:
+        return
+    from astropy.wcs import WCS
+    worst = 0.0
+    for proj in wz.PROJECTIONS:
+        for crval in ((180.0, -30.0), (359.99, 85.0), (12.3, 0.0)):
+            for rot in (40.0, -75.0, 120.0, 180.0):
+                for form in ('pc_rot', 'crota', 'cd_rot'):
+                    h = _rotate_header(wz.make_header(proj, crval, (20.3, 31.7), (-0.01, 0.01), (64, 48)), form, rot)
+                    zz = _oracle_from_header(h)
+                    p1, p2 = np.meshgrid(np.linspace(-10, 80, 5), np.linspace(-20, 90, 5))
+                    sky = WCS(h, naxis=2).wcs_pix2world(np.column_stack([p1.ravel(), p2.ravel()]), 1)
+                    ra, dec = zz.pix2sky(p1.ravel(), p2.ravel())
+                    worst = max(worst, float(np.max(sphere.sep(sky[:, 0], sky[:, 1], ra, dec))))
+    if not worst < 1e-10:
+        raise RuntimeError('oracle fault: independent WCS disagrees with astropy.wcs on rotated grids by %g deg' % worst)
+    _rot_checked = True
+
+
+def _rotate_header(h, form, rot):
+    """re-express a north-up CDELT header on a grid rotated by `rot` degrees, in one of the three FITS spellings"""
+    c1, c2 = float(h['CDELT1']) if 'CDELT1' in h else float(h['CD1_1']), float(h['CDELT2']) if 'CDELT2' in h else float(h['CD2_2'])
+    r = np.radians(rot)
+    if form == 'pc_rot':
+        for k in ('CD1_1', 'CD1_2', 'CD2_1', 'CD2_2'):
+            if k in h:
+                del h[k]
+        h['CDELT1'], h['CDELT2'] = c1, c2
+        h['PC1_1'], h['PC1_2'], h['PC2_1'], h['PC2_2'] = float(np.cos(r)), float(-np.sin(r)), float(np.sin(r)), float(np.cos(r))
+    elif form == 'crota':
+        h['CDELT1'], h['CDELT2'] = c1, c2
+        h['CROTA2'] = float(rot)
+    elif form == 'cd_rot':
+        for k in ('CDELT1', 'CDELT2'):
+            if k in h:
+                del h[k]
+        h['CD1_1'], h['CD1_2'] = float(c1 * np.cos(r)), float(-c1 * np.sin(r))
+        h['CD2_1'], h['CD2_2'] = float(c2 * np.sin(r)), float(c2 * np.cos(r))
+    else:
+        raise ValueError(form)
+    return h
 
 
 def _fin(*xs):
@@ -127,7 +203,10 @@ def _pixel_in_domain(z, x, y):
 
 
 def _square(z):
-    return abs(abs(z.cd[0, 0]) - abs(z.cd[1, 1])) <= 1e-9 * abs(z.cd[0, 0])
+    """square pixels on any orientation/parity: CD CD^T = s^2 I"""
+    g = z.cd @ z.cd.T
+    s2 = 0.5 * (g[0, 0] + g[1, 1])
+    return abs(g[0, 0] - g[1, 1]) <= 2e-9 * s2 and abs(g[0, 1]) <= 1e-9 * s2
 
 
 def _pixvec(z, ra0, dec0, ra1, dec1):
@@ -481,12 +560,17 @@ CRVALS = [(180.0, -30.0), (0.0, 85.0), (359.9999, -85.0), (0.0001, 60.0), (12.3,
           (270.0, 30.0), (0.0, 0.0)]
 
 
+FORMS = ['square', 'pc_rot', 'nonsquare', 'cd', 'flipped', 'crota', 'square', 'cd_rot']
+ROTS = [40.0, -75.0, 120.0, 180.0, 90.0, -1.5]
+
+
 def _header_case(rng, proj, k, n, seed):
     crval = CRVALS[k % len(CRVALS)]
     if k >= len(CRVALS):
         crval = (float(rng.choice([0.0, 359.99, rng.uniform(0, 360)])), float(rng.uniform(-85, 85)))
     s1 = float(10 ** rng.uniform(0, np.log10(60.0)))            # arcsec
-    form = ['square', 'square', 'nonsquare', 'cd', 'flipped'][k % 5]
+    form = FORMS[(k + wz.PROJECTIONS.index(proj)) % len(FORMS)]      # shifted per projection: forms meet all CRVALs
+    rot = float(rng.choice(ROTS + [float(rng.uniform(-180, 180))])) if form in ('pc_rot', 'crota', 'cd_rot') else 0.0
     s2 = s1
     if form == 'nonsquare':
         s2 = float(np.clip(s1 * rng.uniform(0.5, 2.0), 1.0, 60.0))
@@ -509,7 +593,7 @@ def _header_case(rng, proj, k, n, seed):
         crpix = (float(np.round(rng.uniform(1, cols))), float(np.round(rng.uniform(1, rows))))
     return {'kind': 'header', 'proj': proj, 'crval': list(crval), 'crpix': list(crpix),
             'cdelt': [sg1 * s1 / 3600.0, sg2 * s2 / 3600.0], 'shape': [rows, cols], 'use_cd': form == 'cd',
-            'form': form, 'n': n, 'seed': [seed, proj, k]}
+            'form': form, 'rot': rot, 'n': n, 'seed': [seed, proj, k]}
 
 
 def cases(seed, tier):
@@ -532,11 +616,24 @@ def _angle(rng):
     return float(-rng.uniform(-180, 180))       # (-180, 180]
 
 
+def _build_header(case, beam):
+    hdr = wz.make_header(case['proj'], tuple(case['crval']), tuple(case['crpix']), tuple(case['cdelt']),
+                         tuple(case['shape']), beam=beam, use_cd=bool(case.get('use_cd')))
+    if case.get('form') in ('pc_rot', 'crota', 'cd_rot'):
+        hdr = _rotate_header(hdr, case['form'], case['rot'])
+    return hdr
+
+
 def run(case):
     from AegeanTools import wcs_helpers
     install()
     sphere.selfcheck()
     wz.selfcheck()
+    _selfcheck_rotated()
+    if case['kind'] == 'psfmap':
+        return _run_psfmap(case, wcs_helpers)
+    if case['kind'] == 'sequence':
+        return _run_sequence(case, wcs_helpers)
     o = Obs()
     set_obs(o)
     try:
@@ -544,9 +641,10 @@ def run(case):
         rows, cols = case['shape']
         beam_a = float(min(0.09, 4 * max(abs(case['cdelt'][0]), abs(case['cdelt'][1]))))
         beam = (beam_a, beam_a * float(rng.uniform(0.3, 1.0)), _angle(rng))
-        hdr = wz.make_header(case['proj'], tuple(case['crval']), tuple(case['crpix']), tuple(case['cdelt']),
-                             (rows, cols), beam=beam, use_cd=case['use_cd'])
-        z = wz.ZenithalWCS(hdr)
+        hdr = _build_header(case, beam)
+        z = _oracle_from_header(hdr)
+        if case.get('rot'):
+            o.count('rotated_header_cases')
         try:
             w = wcs_helpers.WCSHelper.from_header(hdr)
         except Exception as e:
@@ -659,6 +757,8 @@ def run(case):
                                             'proj': case['proj'], 'crval': case['crval'], 'cdelt': case['cdelt']})
         except Exception as ex:
             o.violate('raises', {'where': 'get_psf_sky2sky', 'exc': repr(ex)})
+        _judge_nomap_psf(o, w, z, beam, rng, rows, cols, {'proj': case['proj'], 'crval': case['crval'], 'cdelt': case['cdelt'],
+                                                          'form': case['form'], 'rot': case.get('rot', 0.0)})
         if rows_in:
             o.n_nontrivial += n_distinct_rows(*np.array(rows_in).T)
         o.sample = sample
